@@ -244,10 +244,18 @@ def run_case(case):
                 res.exception("adc:exception", e, f"version {ver}")
         res.sig = "grid"
     elif cls == "dense":
-        for ver, nshank, kind in ((1, 1, "3B2"), (2, 1, "NP2.1"), (2, 4, "NP2.4"), (2.4, 4, "NP2.4"), ("NPultra", 1, "NPultra")):
+        # every way of naming a generation (major version 2 / 2.1 / 2.4) crossed with the number of shanks asked for: a four-shank PROBE recorded on one
+        # shank (version 2.4, one shank) has the single-shank dense layout, a 2.1 header asked for four shanks the four-shank one
+        for ver, nshank, kind in ((1, 1, "3B2"), (2, 1, "NP2.1"), (2, 4, "NP2.4"), (2.4, 4, "NP2.4"), ("NPultra", 1, "NPultra"),
+                                  (2.1, 1, "NP2.1"), (2.4, 1, "NP2.4:one-shank"), (2.1, 4, "NP2.4")):
             try:
                 h = neuropixel.trace_header(version=ver, nshank=nshank)
-                rec = G.make(rng, kind=kind, sites=G.draw_sites(rng, kind, 384, "dense"), ns=3, raw=np.zeros((3, 385), np.int16))
+                if ver == 2.4 and nshank == 1:
+                    hd = neuropixel.trace_header(version=2.4)      # one shank is the default
+                    res.check(all(np.array_equal(hd[k], h[k]) for k in h), "dense:default-nshank", "trace_header(version=2.4) differs from trace_header(version=2.4, nshank=1)")
+                one_shank = kind.endswith(":one-shank")
+                kind = kind.split(":")[0]
+                rec = G.make(rng, kind=kind, sites=G.draw_sites(rng, "NP2.1" if one_shank else kind, 384, "dense"), ns=3, raw=np.zeros((3, 385), np.int16))
                 f = d / f"dense_{kind}.ap.meta"
                 f.write_text(rec.meta_text)
                 g = spikeglx.geometry_from_meta(spikeglx.read_meta_data(f), sort=False)
